@@ -16,6 +16,9 @@ type C12Case struct {
 	Ctx    Ctx  `json:"ctx"`
 	Macros []*S `json:"macros"` // the library
 	Body   []*S `json:"body"`   // call sites, written with M = "local"
+	// Wrap: the including template also defines a macro of its own whose body calls the first
+	// library macro the same way the call sites do (a macro reached from inside another macro)
+	Wrap bool `json:"wrap,omitempty"`
 }
 
 var c12Forms = []string{"local", "self", "import", "from", "alias", "fromonly"}
@@ -29,7 +32,11 @@ func retarget(body []*S, form string) []*S {
 		}
 		cp := *e
 		if cp.K == "mcall" {
-			cp.M = form
+			if cp.M == "wrapper" {
+				cp.M = "local" // the template's own macro, whatever the form
+			} else {
+				cp.M = form
+			}
 		}
 		cp.A = make([]*E, len(e.A))
 		for i, a := range e.A {
@@ -59,6 +66,12 @@ func retarget(body []*S, form string) []*S {
 func c12Set(c C12Case, form string) TSet {
 	lib := &Tmpl{Name: "lib", Body: cloneBodyNoMerge(c.Macros)}
 	main := &Tmpl{Name: "main"}
+	body := c.Body
+	if c.Wrap && len(c.Macros) > 0 && form != "import" {
+		call := &E{K: "mcall", S: c.Macros[0].Name, M: "local", A: []*E{Var("a"), Int(2)}}
+		wrapper := &S{K: "macro", Name: "c12wrap", Params: []Param{{Name: "a"}}, Body: []*S{Text("W["), Print(call), Text("]")}}
+		body = append(append([]*S{wrapper}, body...), Print(&E{K: "mcall", S: "c12wrap", M: "wrapper", A: []*E{Int(1)}}))
+	}
 	switch form {
 	case "local", "self":
 		main.Body = append(main.Body, cloneBodyNoMerge(c.Macros)...)
@@ -80,7 +93,7 @@ func c12Set(c C12Case, form string) TSet {
 				}
 			}
 		}
-		scan(c.Body)
+		scan(body)
 		s := &S{K: "from", E: Str("lib")}
 		for _, m := range c.Macros {
 			if used[m.Name] {
@@ -102,7 +115,7 @@ func c12Set(c C12Case, form string) TSet {
 		}
 		main.Body = append(main.Body, s)
 	}
-	main.Body = append(main.Body, retarget(c.Body, form)...)
+	main.Body = append(main.Body, retarget(body, form)...)
 	return TSet{lib, main}
 }
 
@@ -112,7 +125,19 @@ func checkC12(c C12Case) error {
 	if want.domain {
 		return nil
 	}
+	wantWrap := want
+	noWrap := c
+	noWrap.Wrap = false
+	wantNoWrap := runModel(c12Set(noWrap, "local"), "main", c.Ctx, 0)
 	for _, form := range c12Forms {
+		// the wrapper macro is not written for the `import ... as` form (see c12Set)
+		want = wantWrap
+		if form == "import" {
+			want = wantNoWrap
+			if want.domain {
+				continue
+			}
+		}
 		set := c12Set(c, form)
 		srcs := set.Sources(SPrint{})
 		e := newEngine(srcs)
@@ -262,7 +287,20 @@ func genC12(t *rapid.T) (C12Case, map[string]bool) {
 	c.Ctx.Set("xs", List(Int(4), Int(5)))
 	nm := rapid.IntRange(1, 4).Draw(t, "nmacros")
 	for i := 0; i < nm; i++ {
+		if i == 0 && g.pick(4, "recursive") == 0 {
+			// a macro that calls itself (bare name or _self), also as the only macro of its library
+			g.stats["recursive"] = true
+			self := &E{K: "mcall", S: "m0", M: rapid.SampledFrom([]string{"local", "self"}).Draw(t, "recform"), A: []*E{Bin("-", Var("n"), Int(1))}}
+			c.Macros = append(c.Macros, &S{K: "macro", Name: "m0", Params: []Param{{Name: "n", Def: Int(2)}}, Body: []*S{Text("<m0 n="), Print(Var("n")),
+				{K: "if", Conds: []*E{Bin(">", Var("n"), Int(0))}, Bodies: [][]*S{{Text(" ["), Print(self), Text("]")}}}, Text(">")}})
+			c.Body = append(c.Body, Print(&E{K: "mcall", S: "m0", M: "local", A: []*E{Int(int64(g.pick(4, "recdepth")))}}))
+			continue
+		}
 		c.Macros = append(c.Macros, g.macro(i, c.Macros))
+	}
+	c.Wrap = g.pick(3, "wrap") == 0
+	if c.Wrap {
+		g.stats["called-from-another-templates-macro"] = true
 	}
 	ncalls := rapid.IntRange(1, 4).Draw(t, "ncalls")
 	for i := 0; i < ncalls; i++ {
@@ -284,7 +322,7 @@ func genC12(t *rapid.T) (C12Case, map[string]bool) {
 	return c, g.stats
 }
 
-const c12Rule = "libraries of 1-4 macros with 0-5 parameters (names overlapping the caller's variables), any subset with default expressions, bodies that print/test/default their parameters, assign names the caller probes and call earlier macros of the library (bare name or _self); call sites with fewer/equal/more arguments at top level, in loops (loop variable and counters as arguments), blocks and conditionals; every case rendered through all five forms (local, _self, import as, from import, from import as alias); non-trivial = argument count != parameter count, or a default is declared, or a parameter shadows an outer variable, or a macro calls a sibling; distinct by (library, call sites)"
+const c12Rule = "libraries of 1-4 macros with 0-5 parameters (names overlapping the caller's variables), any subset with default expressions, bodies that print/test/default their parameters, assign names the caller probes call earlier macros of the library (bare name or _self) or themselves (recursion, also in a one-macro library); a macro of the calling template that calls into the library; call sites with fewer/equal/more arguments at top level, in loops (loop variable and counters as arguments), blocks and conditionals; every case rendered through all five forms (local, _self, import as, from import, from import as alias); non-trivial = argument count != parameter count, or a default is declared, or a parameter shadows an outer variable, or a macro calls a sibling; distinct by (library, call sites)"
 
 func TestC12Macros(t *testing.T) {
 	r := NewRec(t, "C12", c12Rule)
